@@ -441,14 +441,20 @@ func deepEq(a, b reflect.Value, d int) bool {
 		if a.Len() != b.Len() {
 			return false
 		}
+		used := map[int]bool{}
+		var bk, bv []reflect.Value // b's entries once, in one order (every range over a map starts somewhere else)
+		for jt := b.MapRange(); jt.Next(); {
+			bk, bv = append(bk, jt.Key()), append(bv, jt.Value())
+		}
 		it := a.MapRange()
 		for it.Next() {
-			// keys are matched structurally (a cloned pointer key is a different pointer)
+			// keys are matched structurally (a cloned pointer key is a different pointer, a NaN key matches a NaN
+			// key); every entry of b is matched at most once
 			found := false
-			jt := b.MapRange()
-			for jt.Next() {
-				if deepEq(it.Key(), jt.Key(), d+1) {
-					found = deepEq(it.Value(), jt.Value(), d+1)
+			for j := range bk {
+				if !used[j] && deepEq(it.Key(), bk[j], d+1) && deepEq(it.Value(), bv[j], d+1) {
+					used[j] = true
+					found = true
 					break
 				}
 			}
@@ -457,6 +463,9 @@ func deepEq(a, b reflect.Value, d int) bool {
 			}
 		}
 		return true
+	case reflect.Float32, reflect.Float64:
+		x, y := a.Float(), b.Float()
+		return x == y || (x != x && y != y)
 	case reflect.Interface:
 		if a.IsNil() || b.IsNil() {
 			return a.IsNil() && b.IsNil()
